@@ -261,7 +261,7 @@ const ALIASES: &[Alias] = &[
 
 fn alias_script(t: &str, read: &str) -> String {
     let mut src = format!(
-        "record Rec {{ v: {t}, n: u8 }}\nfn reread() -> {t} {{ {read} }}\nfn reread_late(s: u8) -> {t} {{ if s == 1 {{ note({read}); }} {read} }}\n\
+        "record Rec {{ v: {t}, n: u8 }}\nfn reread() -> {t} {{ {read} }}\n\
          fn callee(a: {t}, x: {t}) -> {t} {{ a = x; a }}\n"
     );
     for a in ALIASES {
@@ -331,17 +331,15 @@ fn sc_alias_const<T: BT>(env: &Env, rep: &mut Report, name: &str) {
             }
         }
         let reread = pkg.get_function::<fn() -> T>("reread").unwrap();
-        let reread_late = pkg.get_function::<fn(u8) -> T>("reread_late").unwrap();
         let reread2 = pkg2.get_function::<fn() -> T>("reread").unwrap();
         for j in 0..3 {
             let x = T::gen_val(&mut p, k + 2 + j);
             let xs = x.show();
             let host2 = host.clone();
             let mut after = || {
-                let now = [reread.call().show(), reread_late.call(0).show(), reread2.call().show()];
-                clear_log();
+                let now = [reread.call().show(), reread2.call().show()];
                 if now.iter().any(|s| *s != host2) {
-                    Some(json!({"registered": host2, "reread()": now[0], "reread_late(0)": now[1], "reread() of a second package": now[2]}))
+                    Some(json!({"registered": host2, "reread()": now[0], "reread() of a second package": now[1]}))
                 } else {
                     None
                 }
